@@ -654,7 +654,14 @@ def check_C08(ck):
             cases.append(("m%s/raw" % f, "m%s add %x %x" % (f, a, b))); exp.append(None)
             cases.append(("m%s/raw" % f, "m%s sub %x %x" % (f, a, b))); exp.append(None)
             cases.append(("m%s/raw" % f, "m%s mul %x %x" % (f, a, b))); exp.append(None)
+            # limb-level program extracted from the macro-expanded source (also on NON-reduced raw values)
+            cases.append(("l%s/limb-program" % f, "l%s mul %x %x" % (f, a, b))); exp.append("%x" % (a * b * pow(W, p - 2, p) % p))
+        for _ in range(20 if not thorough else 300):
+            a, b = rng.randrange(W), rng.randrange(W)
+            cases.append(("l%s/limb-program-unreduced" % f, "l%s mul %x %x" % (f, a, b))); exp.append(None)
+            cases.append(("l%s/limb-program-unreduced" % f, "l%s sq %x" % (f, a))); exp.append(None)
         for a in sp:
+            cases.append(("l%s/limb-program" % f, "l%s sq %x" % (f, a))); exp.append("%x" % (a * a * pow(W, p - 2, p) % p))
             for op, want in (("neg", (-a) % p), ("dbl", 2 * a % p), ("sq", a * a % p)):
                 cases.append(("%s/%s" % (f, op), "%s %s %x" % (f, op, a))); exp.append("%x" % want)
             cases.append(("%s/inv" % f, "%s inv %x" % (f, a))); exp.append("none" if a == 0 else "%x" % pow(a, p - 2, p))
